@@ -78,6 +78,7 @@ type readObs struct {
 	buf    int
 	last   string
 	panic_ string
+	stale  bool // a read left in the (reused) destination something else than the message of its frame
 }
 
 // runReader drives the real reader over the chunk plan until the first error.
@@ -112,9 +113,11 @@ func runReader(v variantSpec, max int, plan [][]byte) (obs readObs) {
 		}
 		return rd.(*uint32Reader).buf
 	}
+	// ONE destination message for the whole stream, as a caller that loops over ReadMsg has: every
+	// read must leave in it exactly the message of its frame (an empty one after a non-empty one too)
+	msg := &wrapperspb.BytesValue{}
 	for iter := 0; iter < len(flat)+2; iter++ {
 		before := consumed()
-		msg := &wrapperspb.BytesValue{}
 		err := rd.ReadMsg(msg)
 		after := consumed()
 		frame := flat[before:after]
@@ -140,6 +143,11 @@ func runReader(v variantSpec, max int, plan [][]byte) (obs readObs) {
 			body := append([]byte(nil), bufOf()[:k]...)
 			obs.oks = append(obs.oks, err == nil)
 			if err == nil {
+				// what the caller holds now: the decoded message, re-encoded (BytesValue is canonical)
+				if dec, merr := proto.Marshal(msg); merr == nil && !bytes.Equal(dec, body) {
+					body = dec
+					obs.stale = true
+				}
 				obs.bodies = append(obs.bodies, body)
 				obs.events = append(obs.events, "Msg "+vharness.Bytes(body))
 				continue
@@ -244,6 +252,9 @@ func TestVerifC18(t *testing.T) {
 		}
 		if obs.buf > max {
 			ok, note = false, fmt.Sprintf("buffer %d exceeds limit %d", obs.buf, max)
+		}
+		if obs.stale {
+			ok, note = false, "a message read into a reused destination is not the message of its frame"
 		}
 		if want != nil {
 			// oracle: the frames before the fault are delivered intact
